@@ -121,6 +121,32 @@ pub fn run(tier: &str, seed: u64, replay: Option<String>) -> i32 {
         diskrun::stratified(all, 40, &mut rng)
     };
     jobs.extend(selected);
+    // generated projects: option variations of the shipped .ctehexml files must be closed too
+    let dict = crate::optvar::Dictionary::build();
+    let mut opt_jobs: Vec<DJob> = vec![];
+    for f in files.iter().filter(|f| f.kind == FileKind::Ctehexml) {
+        let mut seen = HashSet::new();
+        for sl in crate::optvar::slots(&f.text) {
+            if !seen.insert((sl.tag.clone(), sl.value.clone())) {
+                continue;
+            }
+            for alt in dict.alternatives(&sl.value) {
+                opt_jobs.push(DJob {
+                    file: f.rel.clone(),
+                    edit: Edit::ValueSwap { line: sl.line, start: sl.start, end: sl.end, text: alt.clone(), flags_on: false },
+                    cell: format!("optvar|{}|{}->{}", sl.tag, sl.value, alt),
+                    level: 1,
+                    e2e: false,
+                    closure: true,
+                    cost: f.text.len(),
+                });
+            }
+        }
+    }
+    let opt_picked = diskrun::stratified(opt_jobs, if thorough { 4 } else { 1 }, &mut rng);
+    let n_opt = opt_picked.len();
+    jobs.extend(opt_picked);
+    eprintln!("[C02] + {} generated projects (option variations)", n_opt);
     eprintln!(
         "[C02] fault space {} single faults in {} cells; running {} jobs",
         space_total,
@@ -217,6 +243,7 @@ pub fn run(tier: &str, seed: u64, replay: Option<String>) -> i32 {
     extra.insert("fault_space_size".into(), json!(space_total));
     extra.insert("cells".into(), json!(n_cells));
     extra.insert("cells_hit".into(), json!(cells_hit.len()));
+    extra.insert("generated_projects_option_variation".into(), json!(n_opt));
     extra.insert("fault_kinds_fired".into(), json!(fired));
     extra.insert("outcome_classes".into(), json!(classes));
     extra.insert("models_returned_after_a_fault".into(), json!(ok_models_after_fault));
